@@ -68,4 +68,20 @@ Definition run14 (o : op14) : out14 :=
   | XAbs x => RFl (fl_abs x)
   end.
 
-Definition check14 (c : op14 * out14) : bool := out14_eqb (run14 (fst c)) (snd c).
+(* the same entry points of the repaired code (fixes/C14-*.diff); `AMul` has two
+   independent repairs, hence four variants *)
+Definition run14_fx (o : op14) : list out14 :=
+  match o with
+  | ANeg A => [RAf (af_neg_fx A)]
+  | AAbs A => [RAf (af_abs_fx A)]
+  | AMul A B => [of_res RAf (af_mul_gen true false A B); of_res RAf (af_mul_gen false true A B);
+                 of_res RAf (af_mul_gen true true A B)]
+  | ALe A B => [RB (af_le_fx A B)]
+  | _ => []
+  end.
+
+Definition check14 (c : op14 * out14) : bool :=
+  out14_eqb (run14 (fst c)) (snd c) || existsb (fun r => out14_eqb r (snd c)) (run14_fx (fst c)).
+
+(* which behaviour was observed: the code as modelled (true) or a repaired variant (false) *)
+Definition as_coded14 (c : op14 * out14) : bool := out14_eqb (run14 (fst c)) (snd c).
